@@ -196,9 +196,13 @@ def contracts(repo):
 
 
 # ------------------------------------------------------------------------------------------------ bounded tier
-def run_machine(machine, data_bytes, path='p'):
+def run_machine(machine, data_bytes, path='p', split=None):
     import cpppo
-    src = cpppo.chainable(data_bytes)
+    if split is None:
+        src = cpppo.chainable(data_bytes)
+    else:
+        src = cpppo.chainable(data_bytes[:split])        # the same input in two blocks, the second one chained before the parser starts
+        src.chain(data_bytes[split:])
     data = cpppo.dotdict()
     try:
         with machine:
@@ -285,6 +289,16 @@ def bounded(tier, seed):
                          'never completes successfully beyond the limit: stops at or before symbol %d, or fails' % L)
                 if term and exc is None and rest != (inp + extra)[sent:]:
                     viol('%s input=%r limit=%d' % (name, inp, L), 'rest %r' % rest, 'the following bytes are left untouched')
+                if L in (n // 2, n) and n >= 2:
+                    # the same run with the input cut into two chained blocks at every position: nothing may depend on the block boundary
+                    for cut in range(1, n + len(extra)):
+                        ev += 1
+                        got2 = run_machine(mk(terminal=True, limit=L), inp + extra, split=cut)[:4]
+                        distinct.add((name, n, L, 'cut', cut))
+                        if got2 != (term, sent, rest, exc):
+                            viol('%s input=%r limit=%d in two blocks cut at %d' % (name, inp, L, cut), 'terminal, consumed, rest, exception = %r' % (got2,),
+                                 'the outcome of the single-block run %r' % ((term, sent, rest, exc),))
+                            break
                 if len(samples) < 6 and L == n // 2 and n > 3:
                     samples.append(dict(machine=name, input_len=n, limit=L, terminal=term, sent=sent, exception=exc))
     # a limit taken from a length field parsed earlier (CPF item length, SSTRING length): corrupt lengths
@@ -338,6 +352,6 @@ def bounded(tier, seed):
             viol('enip_machine payload length %d' % ln, 'terminal=%r sent=%d rest=%r exc=%r' % (term, sent, rest[:4], exc), 'exactly 24+%d symbols' % ln)
     return dict(evaluations=ev, distinct_nontrivial=len(distinct), distinct_keys=distinct_keys(distinct),
                 rule='every parser machine of the library (%d machines, several inputs each) x limit in {0,1,2,n/2,n-1,n,n+1,2n+1} (quick) / every limit 0..n+2 and 2n+1 (thorough) on input + 4 extra bytes: '
-                     'terminal => sent <= limit; sent + remaining == total; rest untouched; CPF item lengths 0..8 around the real one; dfa repeat 0..4 (quick) / 0..9 (thorough) fixed and '
+                     'terminal => sent <= limit; sent + remaining == total; rest untouched; the same outcome when the input arrives as two chained blocks cut at any position; CPF item lengths 0..8 around the real one; dfa repeat 0..4 (quick) / 0..9 (thorough) fixed and '
                      'from a parsed count with a malformed record at each position; enip_machine payload lengths; distinct = distinct (machine, n, limit) etc.' % len(lib),
                 exhaustive=True, samples=samples, violations=violations[:20], seed=seed)
